@@ -82,7 +82,10 @@ pub(crate) fn rewrite_path(
         }
 
         result.push_str(">::");
-        span_lo = qself.ty.span.hi() + BytePos(1);
+        // What follows the self type (a blank and `as`, or `>`) is skipped by the search for the
+        // next `<` anyway. Stepping over "one byte" of it by hand would end inside a white space
+        // character of several bytes.
+        span_lo = qself.ty.span.hi();
     }
 
     rewrite_path_segments(
